@@ -48,7 +48,14 @@ DEFAULT_EPSREL = 2.0 ** -26  # oqupy.config.INTEGRATE_EPSREL
 C_REL = 100.0
 C_ABS = 1.0
 C_TWIN = 1e-12              # CustomSD(power law) vs PowerLawSD, relative
-KNOWN_TAGS = ("triangle-offset-time1",)
+# second, loose bound of the sub-ohmic thermal regime (known finding
+# "subohmic-thermal-cancellation"): the rounding noise of the library's eta
+# integrand is ~ eps_mach * J(w) T / w^3, i.e. proportional to
+# alpha * T / wc; worst observed |lib-ref| / (alpha T/wc sum|c_i|) over the
+# calibration sweeps is 5e-4 (zeta = 0.1), frozen with 10x headroom.
+C_LOOSE = 5e-3
+KNOWN_TAGS = ("triangle-offset-time1", "subohmic-thermal-cancellation",
+              "inf-tail-quad-glitch")
 
 RULE = ("seeded random spectral densities: alpha in (0,4], zeta in [0.1,4], "
         "cutoff 0.3..20, three cutoff types, eight temperature classes (0, "
@@ -157,7 +164,9 @@ class Judge:
 
     def compare(self, monitor, lib, ref, bound, what, mechanism, detail=None,
                 obs=None):
-        """|lib-ref| <= bound ?  Returns True if it held."""
+        """|lib-ref| <= bound ?  Returns True if it held.  `mechanism` is a
+        string or a callable () -> (string, evidence dict) that is only
+        evaluated when the comparison fails (known-finding classifiers)."""
         self.count(monitor)
         err = abs(complex(lib) - complex(ref))
         if self.dump is not None:
@@ -166,16 +175,24 @@ class Judge:
         ratio = err / bound if bound > 0 else (0.0 if err == 0 else math.inf)
         if not ratio == ratio:
             ratio = math.inf
-        self.note("ratio:" + (obs or monitor), ratio)
-        if ratio <= 1.0 or mechanism not in KNOWN_TAGS:
-            # comparisons carrying a known-finding tag are reported under
-            # their own obs key and do not enter the worst ratio
-            self.maxratio = max(self.maxratio, ratio)
         if ratio <= 1.0:
+            self.note("ratio:" + (obs or monitor), ratio)
+            self.maxratio = max(self.maxratio, ratio)
             return True
         d = {"lib": complex(lib), "ref": complex(ref), "err": err,
-             "bound": bound}
+             "bound": float(bound)}
         d.update(detail or {})
+        if callable(mechanism):
+            mechanism, evidence = mechanism()
+            d.update(evidence or {})
+        if mechanism in KNOWN_TAGS:
+            # comparisons carrying a known-finding tag are reported under
+            # their own obs key and do not enter the worst ratio
+            self.note("ratio:" + mechanism, ratio)
+            self.count("tagged:" + mechanism)
+        else:
+            self.note("ratio:" + (obs or monitor), ratio)
+            self.maxratio = max(self.maxratio, ratio)
         self.violations.append({
             "what": f"{what}: |lib-ref| = {err:.3e} > bound {bound:.3e}",
             "mechanism": mechanism, "detail": d})
@@ -329,10 +346,11 @@ def _gl_order(h, wc):
     return 6 if x <= 0.25 else (8 if x <= 0.5 else 12)
 
 
-def _weighted_gl(c, shape, dt, t1, t2, wc, extra=0):
+def _weighted_gl(c, shape, dt, t1, t2, wc, extra=0, nodes=None):
     """int w(s) c(s) ds by Gauss-Legendre panels (deterministic cost: the
     library correlation carries quadrature noise ~epsrel, an adaptive rule
-    with a tighter tolerance would subdivide for ever)."""
+    with a tighter tolerance would subdivide for ever).  `nodes`, if a list,
+    receives (s, weight, value) of every node."""
     panels, w = _panels(shape, dt, t1, t2, wc)
     tot = 0j
     nev = 0
@@ -340,8 +358,12 @@ def _weighted_gl(c, shape, dt, t1, t2, wc, extra=0):
         x, wt = _gl(_gl_order(b - a, wc) + extra)
         for xi, wi in zip(x, wt):
             s = 0.5 * (a + b) + 0.5 * (b - a) * xi
-            tot += 0.5 * (b - a) * wi * w(s) * complex(c(s))
+            val = complex(c(s))
+            fac = 0.5 * (b - a) * wi * w(s)
+            tot += fac * val
             nev += 1
+            if nodes is not None:
+                nodes.append((s, fac, val))
     return tot, nev
 
 
@@ -360,8 +382,77 @@ def _weighted_own(corr, shape, dt, t1, t2, wc, zeta, sign=1.0):
     if abs(m1 - m2) > 1e-9 * area:
         raise rb.RefUnreliable("panel rule not converged on the model "
                                f"function: {abs(m1 - m2):.2e}")
-    val, nev = _weighted_gl(corr, shape, dt, t1, t2, wc)
-    return sign * val, nev
+    nodes = []
+    val, nev = _weighted_gl(corr, shape, dt, t1, t2, wc, nodes=nodes)
+    return sign * val, nodes
+
+
+# --- known-finding classifiers -----------------------------------------------------
+
+class Classifier:
+    """Evidence-based attribution of a deviation to one of the two open
+    accuracy findings of CustomSD (see vp/mon/quadtwin.py).  A tag is given
+    only if the harness' replica of the pinned integrand reproduces the
+    library value (so the library did nothing else than that) AND the
+    repaired integrand / tail reproduces the independent reference."""
+
+    def __init__(self, obj, p, pref, variant, eps_eff):
+        from vp.mon import quadtwin
+        self.tw = quadtwin.Twin(obj, pref, eps_eff)
+        self.p = p
+        self.subohmic_thermal = p["zeta"] < 1.0 and p["temperature"] > 0.0
+        self.soft = p["cutoff_type"] != "hard"
+        a_eff = p["alpha"] * (1.5 if variant == "custom-j" else 1.0)
+        self.noise = a_eff * p["temperature"] / p["cutoff"]
+
+    def eta_combo(self, lib, ref, terms, bound, default, matsubara=False):
+        """Mechanism for a deviating linear combination sum c_i eta(t_i)
+        (terms carry exactly the library's float arguments)."""
+        def run():
+            ev = {}
+            if not (self.subohmic_thermal or self.soft):
+                return default, ev
+            tw = self.tw
+            rep = tw.combo(terms, "replica", matsubara)
+            ev["replica_of_pinned_integrand"] = complex(rep)
+            ev["lib_minus_replica"] = abs(lib - rep)
+            if not abs(lib - rep) <= 1e-2 * bound:
+                return default, ev
+            ncoef = sum(abs(c) for c, _ in terms)
+            loose = C_LOOSE * self.noise * ncoef
+            if self.subohmic_thermal:
+                st = tw.combo(terms, "stable", matsubara)
+                ev["stable_integrand_same_quad"] = complex(st)
+                ev["stable_minus_ref"] = abs(st - ref)
+                ev["loose_bound"] = loose
+                if abs(st - ref) <= bound and abs(lib - ref) <= loose:
+                    return "subohmic-thermal-cancellation", ev
+            if self.soft:
+                fin = tw.combo(terms, "finite", matsubara)
+                ev["finite_tail_same_integrand"] = complex(fin)
+                ev["finite_minus_ref"] = abs(fin - ref)
+                if abs(fin - ref) <= bound:
+                    return "inf-tail-quad-glitch", ev
+            return default, ev
+        return run
+
+    def correlation(self, lib, ref, tau, bound, default):
+        def run():
+            ev = {}
+            if not self.soft:
+                return default, ev
+            rep = self.tw.correlation(tau, "replica")
+            ev["replica_of_pinned_integrand"] = complex(rep)
+            ev["lib_minus_replica"] = abs(lib - rep)
+            if not abs(lib - rep) <= 1e-2 * bound:
+                return default, ev
+            fin = self.tw.correlation(tau, "finite")
+            ev["finite_tail_same_integrand"] = complex(fin)
+            ev["finite_minus_ref"] = abs(fin - ref)
+            if abs(fin - ref) <= bound:
+                return "inf-tail-quad-glitch", ev
+            return default, ev
+        return run
 
 
 # --- spectral-density cases ------------------------------------------------------
@@ -381,9 +472,20 @@ def run_sd(case):
     eps_eff = DEFAULT_EPSREL if eps is None else eps
     nq = _nquad(p)
     nwarn = 0
+    cl = Classifier(obj, p, pref, variant, eps_eff)
 
     eta_ref = rb2.ext(lambda t: rb2.eta(pref, t))
     c0 = rb2.correlation(pref, 0.0).real      # >= |C(tau)| for all tau
+    cref_memo = {}
+
+    def corr_ref(s):
+        """independent C(s), any sign of s"""
+        key = abs(float(s))
+        if key not in cref_memo:
+            cref_memo[key] = rb2.correlation(pref, key, 1e-10 * c0)
+        v = cref_memo[key]
+        return v if s >= 0 else v.conjugate()
+
     # the two implementations of R1 against each other (R1 of vp.ref.bath is
     # the one C01 relies on)
     try:
@@ -413,9 +515,42 @@ def run_sd(case):
                   1e-13 * abs(jref(w)) + 1e-300,
                   f"spectral_density({w:.4g})", "spectral-density")
 
+    def own_mechanism(lib, own, nodes, cell_ref, b_own, cell_mech, default):
+        """Attribution of a lib-cell vs own-correlation deviation: either the
+        cell side deviates (inherits the cell's tag) or single correlation()
+        values deviate (each must be a proven tail glitch)."""
+        def run():
+            ev = {"own": complex(own), "own_minus_ref": abs(own - cell_ref)}
+            if abs(own - cell_ref) <= b_own:
+                # the quadrature of correlation() is right: cell-side cause
+                if cell_mech[0] in KNOWN_TAGS:
+                    ev["inherits_from_cell_comparison"] = cell_mech[0]
+                    return cell_mech[0], ev
+                return default, ev
+            b_c = bnd(eps_eff * c0, EPSABS * nq)
+            corrected = 0j
+            glitches = []
+            for s, fac, val in nodes:
+                r = corr_ref(s)
+                if abs(val - r) > b_c:
+                    mech, e2 = cl.correlation(val, r, s, b_c, None)()
+                    glitches.append({"s": s, "lib": val, "ref": r,
+                                     "mechanism": mech, **e2})
+                    if mech != "inf-tail-quad-glitch":
+                        ev["nodes"] = glitches
+                        return default, ev
+                    val = r
+                corrected += fac * val
+            ev["nodes"] = glitches
+            ev["own_with_glitches_replaced"] = corrected
+            if glitches and abs(lib - corrected) <= b_own:
+                return "inf-tail-quad-glitch", ev
+            return default, ev
+        return run
+
     # ---- cells
     menu = _cell_menu(rng, dt, i, quick)
-    own_budget = 3 if quick else 4
+    own_budget = 1 if quick else 3
     own_classes = set()
     cell_sig = []
     for n, (cls, shape, t1, t2) in enumerate(menu):
@@ -442,37 +577,49 @@ def run_sd(case):
         detail = {"shape": shape, "delta": dt, "time_1": t1, "time_2": t2,
                   "epsrel": eps, "sd": p, "variant": variant,
                   "integration_warnings": nw}
+        cell_mech = [None]
         if offset_tri:
             # known-finding classifier: tag only if the library value equals
-            # the trapezoid eta(t1+dt)-eta(t1) to within the bound
-            err_def = abs(lib - ref)
-            err_trap = abs(lib - trap)
-            detail.update({"definition": ref, "trapezoid": trap,
-                           "lib_minus_trapezoid": err_trap,
-                           "lib_minus_definition": err_def})
-            mech = "triangle-offset-time1" if err_trap <= bound \
-                else "triangle-deviation"
-            J.compare("cells_vs_eta", lib, ref, bound,
-                      f"offset upper-triangle (time_1={t1:.4g}, "
-                      f"delta={dt:.4g}) vs definition via independent eta",
-                      mech, detail, obs="cells_vs_eta:tri-offset")
+            # the trapezoid eta(t1+dt)-eta(t1) to within the bound (or the
+            # remainder lib - trapezoid is itself a proven accuracy finding)
+            def mech_tri(lib=lib, ref=ref, trap=trap, terms=terms,
+                         bound=bound):
+                ev = {"definition": ref, "trapezoid": trap,
+                      "lib_minus_trapezoid": abs(lib - trap),
+                      "lib_minus_definition": abs(lib - ref)}
+                if abs(lib - trap) <= bound:
+                    return "triangle-offset-time1", ev
+                m2, e2 = cl.eta_combo(lib, trap, terms, bound, None)()
+                ev.update(e2)
+                if m2 in KNOWN_TAGS:
+                    ev["remainder_attributed_to"] = m2
+                    return "triangle-offset-time1", ev
+                return "triangle-deviation", ev
+            default = "triangle-deviation"
+            mech = mech_tri
+            what = (f"offset upper-triangle (time_1={t1:.4g}, delta={dt:.4g})"
+                    " vs definition via independent eta")
         else:
-            mech = "triangle-deviation" if shape == "upper-triangle" \
+            default = "triangle-deviation" if shape == "upper-triangle" \
                 else shape + "-deviation"
-            J.compare("cells_vs_eta", lib, ref, bound,
-                      f"{shape} cell ({cls}, time_1={t1:.4g}, delta={dt:.4g}"
-                      f", time_2={t2}) vs independent eta",
-                      mech, detail)
-        J.note("relerr_cell", abs(lib - ref) / max(scale, 1e-300)
-               if not offset_tri else 0.0)
-        # own-correlation oracle on a rotating subset (cost: ~100-300
+            mech = cl.eta_combo(lib, ref, terms, bound, default)
+            what = (f"{shape} cell ({cls}, time_1={t1:.4g}, delta={dt:.4g}, "
+                    f"time_2={t2}) vs independent eta")
+
+        def mech_rec(mech=mech, cell_mech=cell_mech):
+            m, ev = mech()
+            cell_mech[0] = m
+            return m, ev
+        J.compare("cells_vs_eta", lib, ref, bound, what, mech_rec, detail,
+                  obs="cells_vs_eta:tri-offset" if offset_tri else None)
+        # own-correlation oracle on a rotating subset (cost: ~50-200
         # correlation() evaluations each)
         span = ((t2 if t2 is not None else t1 + dt) - (t1 - dt)) * wc
         want = (n == (i % 3)) or (cls not in own_classes
                                   and n >= 3 and len(own_classes) < own_budget)
-        if want and span <= 12.0 and not offset_tri:
+        if want and span <= 8.0:
             own_classes.add(cls)
-            own, nev = _weighted_own(
+            own, nodes = _weighted_own(
                 lambda s: obj.correlation(s, **epskw), shape, dt, t1, t2,
                 wc, p["zeta"])
             area = dt * ((t2 - t1) if t2 is not None else dt)
@@ -480,23 +627,13 @@ def run_sd(case):
             J.compare("cells_vs_own", lib, own, b_own,
                       f"{shape} cell ({cls}) vs weighted quadrature of the "
                       "object's own correlation()",
-                      mech.replace("deviation", "vs-own-correlation"),
-                      dict(detail, correlation_evaluations=nev))
-            J.count("own_correlation_evaluations", nev)
+                      own_mechanism(lib, own, nodes, ref, b_own, cell_mech,
+                                    default.replace("deviation",
+                                                    "vs-own-correlation")),
+                      dict(detail, correlation_evaluations=len(nodes)),
+                      obs="cells_vs_own:tri-offset" if offset_tri else None)
+            J.count("own_correlation_evaluations", len(nodes))
             cells_cov.append("own:" + shape)
-        elif want and offset_tri and span <= 12.0:
-            own, nev = _weighted_own(
-                lambda s: obj.correlation(s, **epskw), shape, dt, t1, t2,
-                wc, p["zeta"])
-            b_own = bound.plus(eps_eff * c0 * dt * dt,
-                               EPSABS * nq * dt * dt)
-            err_trap = abs(lib - trap)
-            J.compare("cells_vs_own", lib, own, b_own,
-                      "offset upper-triangle vs weighted quadrature of the "
-                      "object's own correlation()",
-                      "triangle-offset-time1" if err_trap <= bound
-                      else "triangle-vs-own-correlation",
-                      dict(detail, own=own), obs="cells_vs_own:tri-offset")
         if twin is not None:
             tv = twin.correlation_2d_integral(dt, t1, shape=shape, **kw)
             J.compare("twin_identical", lib, tv, C_TWIN * scale + 1e-300,
@@ -520,21 +657,31 @@ def run_sd(case):
                              shape="square", **epskw)[0]
                    for k in range(1, n)]
     steps = []
+    terms_total = []
     for m in range(1, n + 1):
         steps.append(tri + sum(sq[k] for k in range(1, m)))
+        terms_total += rb2.cell_terms("upper-triangle", dt, 0.0)[0]
+        for k in range(1, m):
+            terms_total += rb2.cell_terms("square", dt, k * dt)[0]
     total = sum(steps)
     big, _ = _lib_call(obj.correlation_2d_integral, n * dt, 0.0,
                        shape="upper-triangle", **epskw)
-    scale_t = sum((n - k) * (abs(eta_ref((k + 1) * dt)) + 2 * abs(eta_ref(k * dt))
-                             + abs(eta_ref((k - 1) * dt))) for k in range(n))
-    b_t = bnd(eps_eff * scale_t, EPSABS * nq * 2 * n * n)
+    terms_big = rb2.cell_terms("upper-triangle", n * dt, 0.0)[0]
+    scale_t = sum(abs(c) * abs(eta_ref(t)) for c, t in terms_total)
+    b_t = bnd(eps_eff * scale_t,
+              EPSABS * nq * sum(abs(c) for c, _ in terms_total))
     det = {"n": n, "delta": dt, "sd": p, "epsrel": eps}
-    J.compare("tiling", total, big, b_t,
-              f"sum of the cells of the first {n} steps vs library triangle "
-              f"with delta = {n} dt", "tiling", det, obs="tiling:lib")
+    diff_terms = terms_total + [(-c, t) for c, t in terms_big]
+    J.compare("tiling", total - big, 0.0, b_t,
+              f"sum of the cells of the first {n} steps minus library "
+              f"triangle with delta = {n} dt",
+              cl.eta_combo(total - big, 0.0, diff_terms, b_t, "tiling"),
+              det, obs="tiling:lib")
     J.compare("tiling", total, eta_ref(n * dt), b_t,
               f"sum of the cells of the first {n} steps vs independent "
-              f"eta({n} dt)", "tiling", det, obs="tiling:ref")
+              f"eta({n} dt)",
+              cl.eta_combo(total, eta_ref(n * dt), terms_total, b_t,
+                           "tiling"), det, obs="tiling:ref")
     if abs(eta_ref(n * dt)) >= 100 * b_t:
         J.sensitive += 1
     # a rectangle = the squares it covers
@@ -545,12 +692,18 @@ def run_sd(case):
     ssum = sum(_lib_call(obj.correlation_2d_integral, dt, k * dt,
                          shape="square", **epskw)[0]
                for k in range(k0, k0 + mm))
-    scale_r = sum(abs(eta_ref((k + 1) * dt)) + 2 * abs(eta_ref(k * dt))
-                  + abs(eta_ref((k - 1) * dt)) for k in range(k0, k0 + mm))
-    J.compare("tiling", rect, ssum,
-              bnd(eps_eff * scale_r, EPSABS * nq * 4 * (mm + 1)),
-              f"rectangle [{k0}dt,{k0 + mm}dt] vs sum of its {mm} squares",
-              "tiling-rectangle", det, obs="tiling:rect")
+    terms_r = rb2.cell_terms("rectangle", dt, k0 * dt, (k0 + mm) * dt)[0]
+    for k in range(k0, k0 + mm):
+        terms_r += [(-c, t) for c, t in
+                    rb2.cell_terms("square", dt, k * dt)[0]]
+    scale_r = sum(abs(c) * abs(eta_ref(t)) for c, t in terms_r)
+    b_r = bnd(eps_eff * scale_r,
+              EPSABS * nq * sum(abs(c) for c, _ in terms_r))
+    J.compare("tiling", rect - ssum, 0.0, b_r,
+              f"rectangle [{k0}dt,{k0 + mm}dt] minus the sum of its {mm} "
+              "squares",
+              cl.eta_combo(rect - ssum, 0.0, terms_r, b_r,
+                           "tiling-rectangle"), det, obs="tiling:rect")
 
     # ---- correlation(): symmetry, reference, closed form
     b_c = bnd(eps_eff * c0, EPSABS * nq)
@@ -563,16 +716,22 @@ def run_sd(case):
         J.compare("symmetry", cm, np.conj(cp), b_c,
                   f"C(-tau) vs conj C(tau) at tau={tau:.4g}",
                   "hermitian-symmetry", det)
-        cref = rb2.correlation(pref, tau, 1e-10 * c0)
+        cref = corr_ref(tau)
         J.compare("corr_vs_ref", cp, cref, b_c,
                   f"correlation({tau:.4g}) vs independent quadrature",
-                  "correlation-deviation", det)
+                  cl.correlation(cp, cref, tau, b_c, "correlation-deviation"),
+                  det)
+        J.compare("corr_vs_ref", cm, np.conj(cref), b_c,
+                  f"correlation({-tau:.4g}) vs independent quadrature",
+                  cl.correlation(cm, np.conj(cref), -tau, b_c,
+                                 "correlation-deviation"), det)
         if temp == 0.0 and p["cutoff_type"] == "exponential" \
                 and variant != "custom-j":
             cf = rb.correlation_closed_T0_exp(p, tau)
             J.compare("closed_form_T0", cp, cf, b_c,
                       f"correlation({tau:.4g}) vs T=0 closed form",
-                      "closed-form-T0", det)
+                      cl.correlation(cp, cf, tau, b_c, "closed-form-T0"),
+                      det)
             ef = rb.eta_closed_T0_exp(p, max(tau, dt))
             # the reference itself against the closed form (self-check of R1)
             if abs(eta_ref(max(tau, dt)) - ef) > 1e-8 * abs(ef) + 1e-13:
@@ -584,15 +743,16 @@ def run_sd(case):
     if temp == 0.0 and p["cutoff_type"] == "exponential" \
             and variant != "custom-j":
         ef = rb.eta_closed_T0_exp(p, dt)
-        J.compare("closed_form_T0", tri, ef,
-                  bnd(eps_eff * abs(ef), EPSABS * nq),
+        b_e = bnd(eps_eff * abs(ef), EPSABS * nq)
+        J.compare("closed_form_T0", tri, ef, b_e,
                   "upper-triangle vs T=0 closed form of eta",
-                  "closed-form-T0", {"sd": p, "delta": dt})
+                  cl.eta_combo(tri, ef, [(1.0, 0.0 + dt), (-1.0, 0.0)], b_e,
+                               "closed-form-T0"), {"sd": p, "delta": dt})
 
     # ---- Matsubara
     if temp > 0.0:
         _matsubara(J, rng, obj, p, pref, epskw, eps_eff, nq, cells_cov,
-                   quick, i)
+                   quick, i, cl)
 
     J.note("integration_warnings", nwarn)
     J.count("lib_integration_warnings", nwarn)
@@ -611,7 +771,8 @@ def run_sd(case):
     }
 
 
-def _matsubara(J, rng, obj, p, pref, epskw, eps_eff, nq, cells_cov, quick, i):
+def _matsubara(J, rng, obj, p, pref, epskw, eps_eff, nq, cells_cov, quick, i,
+               cl):
     temp = p["temperature"]
     beta = 1.0 / temp
     w_g = rb2.guard_frequency(temp)
@@ -622,11 +783,9 @@ def _matsubara(J, rng, obj, p, pref, epskw, eps_eff, nq, cells_cov, quick, i):
     b_c = bnd(eps_eff * abs(cm0), EPSABS * nq)
     fracs = [0.0, float(rng.uniform(0.05, 0.45)), 0.5,
              float(rng.uniform(0.55, 0.95)), 1.0]
-    vals = {}
     for fr in fracs:
         tau = fr * beta
         lib, _ = _lib_call(obj.correlation, tau, matsubara=True, **epskw)
-        vals[fr] = lib
         J.count("matsubara_real")
         if np.iscomplexobj(lib) or not np.isfinite(lib):
             J.fail("matsubara_real_fail",
@@ -636,13 +795,15 @@ def _matsubara(J, rng, obj, p, pref, epskw, eps_eff, nq, cells_cov, quick, i):
         ref = rb2.matsubara_correlation(pref, tau, 1e-10 * cm0)
         det = {"tau": tau, "beta": beta, "sd": p,
                "guard_frequency": w_g}
-        err = abs(lib - ref)
-        mech = "matsubara-deviation"
-        if err > b_c and guard_active:
-            dropped = rb2.matsubara_correlation_dropped(pref, tau)
-            det["dropped_term"] = dropped
-            if abs(lib + dropped - ref) <= b_c:
-                mech = "matsubara-guard-drops-term"
+
+        def mech(lib=lib, ref=ref, tau=tau):
+            ev = {}
+            if guard_active:
+                dropped = rb2.matsubara_correlation_dropped(pref, tau)
+                ev["dropped_term"] = dropped
+                if abs(lib + dropped - ref) <= b_c:
+                    return "matsubara-guard-drops-term", ev
+            return "matsubara-deviation", ev
         J.compare("matsubara_vs_ref", lib, ref, b_c,
                   f"Matsubara correlation at tau = {fr:.3g} beta vs "
                   "independent imaginary-time integral", mech, det)
@@ -651,12 +812,14 @@ def _matsubara(J, rng, obj, p, pref, epskw, eps_eff, nq, cells_cov, quick, i):
         tau = fr * beta
         a, _ = _lib_call(obj.correlation, tau, matsubara=True, **epskw)
         b, _ = _lib_call(obj.correlation, beta - tau, matsubara=True, **epskw)
-        mech = "matsubara-deviation"
-        if abs(a - b) > 2 * b_c and guard_active:
-            d1 = rb2.matsubara_correlation_dropped(pref, tau)
-            d2 = rb2.matsubara_correlation_dropped(pref, beta - tau)
-            if abs((a + d1) - (b + d2)) <= 2 * b_c:
-                mech = "matsubara-guard-drops-term"
+
+        def mech(a=a, b=b, tau=tau):
+            if guard_active:
+                d1 = rb2.matsubara_correlation_dropped(pref, tau)
+                d2 = rb2.matsubara_correlation_dropped(pref, beta - tau)
+                if abs((a + d1) - (b + d2)) <= 2 * b_c:
+                    return "matsubara-guard-drops-term", {"dropped": [d1, d2]}
+            return "matsubara-deviation", {}
         J.compare("matsubara_symmetry", a, b, b_c.times(2),
                   f"Matsubara C(tau) vs C(beta - tau), tau = {fr:.3g} beta",
                   mech, {"tau": tau, "beta": beta, "sd": p})
@@ -675,25 +838,33 @@ def _matsubara(J, rng, obj, p, pref, epskw, eps_eff, nq, cells_cov, quick, i):
                    f"Matsubara {shape} integral returned {lib!r}",
                    "matsubara-not-real", {"k": k, "sd": p})
             continue
-        if k == 0:
-            terms = [(1.0, dtm)]
-        else:
-            terms = [(1.0, (k + 1) * dtm), (-2.0, k * dtm),
-                     (1.0, (k - 1) * dtm)]
-        terms = [(c, min(t, beta)) for c, t in terms]
+        lib_terms = rb2.cell_terms(shape, dtm, k * dtm)[0]
+        # (k+1)*dtm may exceed beta by an ulp: clip for the reference only
+        terms = [(c, min(t, beta)) for c, t in lib_terms]
         ref = sum(c * eta_m(t).real for c, t in terms)
         scale = sum(abs(c) * abs(eta_m(t)) for c, t in terms)
         ncoef = sum(abs(c) for c, _ in terms)
         bound = bnd(eps_eff * scale, EPSABS * nq * ncoef)
         det = {"k": k, "n_steps": nst, "delta": dtm, "beta": beta, "sd": p,
                "guard_frequency": w_g}
-        mech = "matsubara-deviation"
-        if abs(lib - ref) > bound and guard_active:
-            dropped = sum(c * rb2.matsubara_eta_dropped(pref, t)
-                          for c, t in terms if t > 0)
-            det["dropped_term"] = dropped
-            if abs(lib + dropped - ref) <= bound:
-                mech = "matsubara-guard-drops-term"
+        cell_mech = [None]
+
+        def mech(lib=lib, ref=ref, terms=terms, lib_terms=lib_terms,
+                 bound=bound, cell_mech=cell_mech):
+            ev = {}
+            m = "matsubara-deviation"
+            if guard_active:
+                dropped = sum(c * rb2.matsubara_eta_dropped(pref, t)
+                              for c, t in terms if t > 0)
+                ev["dropped_term"] = dropped
+                if abs(dropped) > bound and abs(lib + dropped - ref) <= bound:
+                    m = "matsubara-guard-drops-term"
+            if m == "matsubara-deviation":
+                m, e2 = cl.eta_combo(lib, ref, lib_terms, bound, m,
+                                     matsubara=True)()
+                ev.update(e2)
+            cell_mech[0] = m
+            return m, ev
         if abs(ref) >= 100 * bound:
             J.sensitive += 1
         J.compare("matsubara_cells", lib, ref, bound,
@@ -703,23 +874,61 @@ def _matsubara(J, rng, obj, p, pref, epskw, eps_eff, nq, cells_cov, quick, i):
         if k == ks[(i // 2) % len(ks)] and dtm * p["cutoff"] <= 6.0:
             def cmown(s):
                 return obj.correlation(abs(s), matsubara=True, **epskw)
-            own, nev = _weighted_own(cmown, shape, dtm, k * dtm, None,
-                                     p["cutoff"], p["zeta"], -1.0)
+            own, nodes = _weighted_own(cmown, shape, dtm, k * dtm, None,
+                                       p["cutoff"], p["zeta"], -1.0)
             b_own = bound.plus(eps_eff * abs(cm0) * dtm * dtm,
                                EPSABS * nq * dtm * dtm)
+
+            def mech_own(own=own, ref=ref, b_own=b_own, cell_mech=cell_mech):
+                ev = {"own": own.real, "own_minus_ref": abs(own.real - ref)}
+                if abs(own.real - ref) <= b_own and cell_mech[0] in KNOWN_TAGS:
+                    ev["inherits_from_cell_comparison"] = cell_mech[0]
+                    return cell_mech[0], ev
+                return "matsubara-vs-own-correlation", ev
             J.compare("matsubara_cells_vs_own", lib, own.real, b_own,
                       f"Matsubara {shape} cell k={k} vs weighted quadrature "
-                      "of the own Matsubara correlation",
-                      "matsubara-vs-own-correlation", det)
+                      "of the own Matsubara correlation", mech_own, det)
 
 
 # --- CustomCorrelations cases ---------------------------------------------------
+
+STRADDLE = ("square:t1=0", "square:straddle", "square:t1<0", "rect:straddle")
+# dblquad across a kink of C at tau = 0 (e.g. a e^{-(g+iw)|tau|}) reaches only
+# ~5e-6 relative whatever epsrel is requested (scipy warns); calibrated extra
+# term for that sub-class only: worst observed err/(max|C| * area) = 4.5e-6,
+# frozen with 10x headroom.  Smooth callables use the normal bound.
+C_KINK = 5e-5
+
+
+def _full_menu(rng, dt, i):
+    """All 14 position classes (the sd menu is a rotating subset)."""
+    f = float(rng.uniform(0.1, 0.9))
+    f2 = float(rng.uniform(0.1, 0.9))
+    k = int(rng.integers(2, 6))
+    kk = int(rng.integers(1, 4))
+    return {
+        "tri:0": ("upper-triangle", 0.0, None),
+        "square:k>=1": ("square", k * dt, None),
+        "square:t1=0": ("square", 0.0, None),
+        "square:straddle": ("square", f * dt, None),
+        "square:offgrid": ("square", (kk + f2) * dt, None),
+        "square:t1<0": ("square", -f2 * dt, None),
+        "rect:ext<1": ("rectangle", kk * dt, kk * dt + f * dt),
+        "rect:ext=1": ("rectangle", kk * dt, kk * dt + dt),
+        "rect:ext>1": ("rectangle", kk * dt,
+                       kk * dt + float(rng.uniform(1.1, 3.0)) * dt),
+        "rect:ext>>1": ("rectangle", kk * dt,
+                        kk * dt + float(rng.uniform(4.0, 6.0)) * dt),
+        "rect:straddle": ("rectangle", f2 * dt,
+                          f2 * dt + float(rng.uniform(0.3, 2.5)) * dt),
+        "tri:offset": ("upper-triangle", [dt, f * dt, k * dt][i % 3], None),
+    }
+
 
 def run_cc(case):
     import oqupy
     rng = gen.rng_for(case["seed"], "c12cc", case["idx"])
     i = case["idx"]
-    quick = case["tier"] == "quick"
     J = Judge()
     fam = "exp" if i % 2 == 0 else "modes"
     nterm = 1 + (i // 2) % 3
@@ -744,29 +953,39 @@ def run_cc(case):
         desc = {"family": "modes", "w": ws, "g": gs, "T": ts}
         rate = max(ws)
     f_ext = rb2.ext(f_pos)
-    eps = [None, 1e-6, 1e-9][i % 3]
+    eps = [None, 1e-6, 1e-9][(i // 2 + i // 6) % 3]
     epskw = {} if eps is None else {"epsrel": eps}
-    eps_eff = DEFAULT_EPSREL if eps is None else eps
     dt = float(10 ** rng.uniform(-1.3, 0.2)) / max(rate, 0.5) * 2.0
     obj = oqupy.CustomCorrelations(cfun)
     cells_cov = ["cc:" + fam, "eps:default" if eps is None else "eps:explicit"]
-    menu = _cell_menu(rng, dt, i, quick)
-    # dblquad is slow: 5 cells per case, rotating; always one offset triangle
-    # or straddling cell
-    sel = [menu[0]] + [menu[(3 + (i * 3 + j * 4)) % len(menu)]
-                       for j in range(4)]
-    tri_off = [m for m in menu if m[0] == "tri:offset"]
-    if not tri_off:
-        f = float(rng.uniform(0.1, 0.9))
-        tri_off = [("tri:offset", "upper-triangle", [dt, f * dt, 3 * dt][i % 3],
-                    None)]
-    if i % 2 == 0 and tri_off[0] not in sel:
-        sel.append(tri_off[0])
+    menu = _full_menu(rng, dt, i)
+    names = list(menu)
+    smooth_names = [n for n in names if n not in STRADDLE]
+    # dblquad is slow: tri:0 + 4 rotating cells.  Smooth family: any class.
+    # Kinked family: non-straddling classes, plus ONE straddling cell in every
+    # fourth case at default / 1e-6 epsrel (10-25 s each).
+    if fam == "modes":
+        sel = ["tri:0"] + [names[(1 + (i // 2) * 3 + j * 5) % len(names)]
+                           for j in range(4)]
+        if (i // 2) % 2 == 0:
+            sel.append(STRADDLE[(i // 4) % len(STRADDLE)])
+    else:
+        sel = ["tri:0"] + [smooth_names[(1 + (i // 2) * 3 + j * 3)
+                                        % len(smooth_names)]
+                           for j in range(4)]
+        if i % 8 == 0:
+            sel.append(STRADDLE[(i // 8) % len(STRADDLE)])
+    if (i // 2) % 3 == 0 and "tri:offset" not in sel:
+        sel.append("tri:offset")
+    sel = list(dict.fromkeys(sel))
     cell_sig = []
-    for cls, shape, t1, t2 in sel:
-        if cls == "rect:ext>>1":
-            t2 = t1 + min(t2 - t1, 6.0 * dt)
-        kw = dict(epskw)
+    for cls in sel:
+        shape, t1, t2 = menu[cls]
+        kink = (fam == "exp" and cls in STRADDLE)
+        # across the kink a request of 1e-9 only costs minutes
+        eps_c = None if (kink and eps == 1e-9) else eps
+        eps_eff = DEFAULT_EPSREL if eps_c is None else eps_c
+        kw = {} if eps_c is None else {"epsrel": eps_c}
         if t2 is not None:
             kw["time_2"] = t2
         lib, nw = _lib_call(obj.correlation_2d_integral, dt, t1, shape=shape,
@@ -781,10 +1000,13 @@ def run_cc(case):
         # direct 2-D quadrature: requested tolerance eps*|I| + epsabs for the
         # outer and epsabs per unit length for the inner integral, re and im
         bound = bnd(eps_eff * cmax * area, EPSABS * 2.0 * (1.0 + length))
+        if kink:
+            bound = Bound(bound + C_KINK * cmax * area)
+            cells_cov.append("cc:kink-straddle")
         det = {"shape": shape, "delta": dt, "time_1": t1, "time_2": t2,
-               "epsrel": eps, "correlations": desc,
+               "epsrel": eps_c, "correlations": desc,
                "integration_warnings": nw}
-        if 0.0 <= t1 < dt and shape != "upper-triangle" or t1 < 0:
+        if cls in STRADDLE:
             cells_cov.append("cc:straddle")
         cells_cov += ["cc:shape:" + shape, "cc:pos:" + cls]
         cell_sig.append(cls)
@@ -794,7 +1016,10 @@ def run_cc(case):
             + "-deviation-customcorrelations"
         J.compare("cc_cells_vs_analytic", lib, ref, bound,
                   f"CustomCorrelations {shape} cell ({cls}) vs analytic "
-                  "double integral", mech, det)
+                  "double integral", mech, det,
+                  obs="cc_cells:kink-straddle" if kink else "cc_cells")
+        if kink:
+            J.note("kink_relerr", abs(lib - ref) / (cmax * area))
         wq = rb.cell_by_weight(cfun, shape, dt, t1, t2)
         # the two references against each other (self-test)
         if abs(wq - ref) > 1e-9 * cmax * area + 1e-13:
@@ -809,7 +1034,7 @@ def run_cc(case):
             J.fail("triangle_positive_fail",
                    f"Re upper-triangle = {tri.real:.3e} is not positive",
                    "triangle-not-positive", {"correlations": desc})
-    # correlation() passes the callable through (array and scalar)
+    # correlation() passes the callable through
     for tau in (0.0, 0.4 * dt, -0.4 * dt):
         J.compare("cc_correlation", complex(obj.correlation(tau)),
                   complex(cfun(tau)), 1e-14 * cmax,
@@ -823,7 +1048,7 @@ def run_cc(case):
         **({"dump": J.dump} if J.dump is not None else {}),
         "sample": gen.nice({"kind": "cc", "correlations": str(desc),
                             "delta": dt, "epsrel": eps,
-                            "cells": [(c, s, a, b) for c, s, a, b in sel],
+                            "cells": [(c,) + tuple(menu[c]) for c in sel],
                             "worst_ratio": J.maxratio}),
     }
 
